@@ -249,6 +249,14 @@ func TestC20_CLI(t *testing.T) {
 				}
 			}
 		}
+		if rapid.IntRange(0, 4).Draw(t, "quoted-whole") == 0 {
+			// the whole query inside one pair of quotation marks (as cmd.exe hands them through, or as
+			// users type them): padding then sits OUTSIDE the marks on the second command line
+			qm := rapid.SampledFrom([]string{"'", `"`, "`"}).Draw(t, "whole-quote")
+			words = append([]string{}, words...)
+			words[0] = qm + words[0]
+			words[len(words)-1] += qm
+		}
 		q1 := strings.Join(words, " ")
 		// second command line: re-cased, padded, split differently
 		var args2 []string
